@@ -14,7 +14,7 @@ import tempfile
 
 VERIF = os.path.dirname(os.path.dirname(os.path.abspath(__file__)))
 REPO = os.environ.get("RFSM_REPO", "/repo")
-PROPS = ["C%02d" % i for i in range(1, 21)]
+PROPS = os.environ.get("RFSM_PROPS", "").split() or ["C%02d" % i for i in range(1, 21)]
 
 
 def run_one(patch, slot):
